@@ -32,6 +32,22 @@ type Case struct {
 	Unit vkit.B `json:"unit,omitempty"`
 	Text vkit.B `json:"text,omitempty"`
 	Rule int    `json:"rule,omitempty"`
+	// Marshal: settings that belong to marshalling and to the JSON object form, none of which is an input of text parsing or of
+	// New/Bytes: bit 0 DisableMarshalTextUnit, bit 1 DisableMarshalJSONStringForm, bit 2 DisableMarshalJSONObjectForm, bit 3 MaxObjectKeys = 1.
+	Marshal int `json:"marshal_settings,omitempty"`
+}
+
+func configureMarshal(m int) func() {
+	a, b, c, d := size.DisableMarshalTextUnit, size.DisableMarshalJSONStringForm, size.DisableMarshalJSONObjectForm, size.MaxObjectKeys
+	if m != 0 {
+		size.DisableMarshalTextUnit, size.DisableMarshalJSONStringForm, size.DisableMarshalJSONObjectForm = m&1 != 0, m&2 != 0, m&4 != 0
+		if m&8 != 0 {
+			size.MaxObjectKeys = 1
+		}
+	}
+	return func() {
+		size.DisableMarshalTextUnit, size.DisableMarshalJSONStringForm, size.DisableMarshalJSONObjectForm, size.MaxObjectKeys = a, b, c, d
+	}
 }
 
 type (
@@ -366,6 +382,7 @@ func TestCheck(t *testing.T) {
 		if err := r.LoadReplay(&c); err != nil {
 			t.Fatalf("replay: %v", err)
 		}
+		defer configureMarshal(c.Marshal)()
 		r.Serial(func(w *vkit.W) { judge(c, w); w.Eval(true) })
 		return
 	}
@@ -560,6 +577,57 @@ func TestCheck(t *testing.T) {
 				for _, typ := range []string{"uint64", "float64", "int"} {
 					judge(Case{Kind: "new", Type: typ, Bits: 0, Unit: vkit.B(text)}, w)
 					w.EvalRandom(vkit.Hash64("Wn", text, typ), true)
+				}
+			}
+		})
+	})
+
+	r.Phase("S: texts, New and Bytes under every setting of the marshalling switches and MaxObjectKeys = 1 (none of them is an input of parsing or arithmetic)", func() {
+		texts := []string{"0", "7B", "1kB", "1 kB", "15 EiB", "16 EiB", "0 ZB", "1 ZB", "1 000 KiB", "1_024", "18446744073709551615", "18446744073709551616", "18014398509481983 KiB", "18014398509481984 KiB", " 2 MB ", "3\u00a0GiB", "1 xB", "kB", "", "-1", "1.5kB", "9 PB"}
+		for m := 1; m < 16; m++ {
+			restore := configureMarshal(m)
+			r.Serial(func(w *vkit.W) {
+				for _, text := range texts {
+					for _, rule := range []int{0, 1} {
+						judge(Case{Kind: "text", Text: vkit.B(text), Rule: rule, Marshal: m}, w)
+						w.EvalRandom(vkit.Hash64("S", text, strconv.Itoa(rule), strconv.Itoa(m)), true)
+					}
+				}
+				for _, typ := range []string{"uint64", "float64", "int8", "MyU16"} {
+					for _, u := range []string{"", "B", "kB", "EiB", "ZB", "xB"} {
+						for _, bits := range []uint64{0, 1, 18} {
+							judge(Case{Kind: "new", Type: typ, Bits: bits, Unit: vkit.B(u), Marshal: m}, w)
+							w.EvalRandom(vkit.Hash64("Sn", typ, u, strconv.Itoa(int(bits)), strconv.Itoa(m)), true)
+						}
+					}
+				}
+			})
+			restore()
+		}
+	})
+
+	r.Phase("R: runes that fold, truncate (low byte) or widen to a digit, a separator or a unit letter, inserted and substituted at every position of valid texts", func() {
+		runes := ref.ConfusableRunes("0123456789 _kMGTPEZYiB\xa0")
+		bases := []string{"12", "1 000 kB", "7 EiB", "1_0 KiB", "5", "1\u00a0000\u00a0B", "20MB"}
+		r.Parallel(int64(len(runes)), 8, func(w *vkit.W, lo, hi int64) {
+			for i := lo; i < hi; i++ {
+				rs := string(runes[i])
+				for _, base := range bases {
+					for pos := 0; pos <= len(base); pos++ {
+						if pos < len(base) && base[pos] >= 0x80 && base[pos] < 0xC0 {
+							continue // not inside a multi-byte character of the base
+						}
+						texts := []string{base[:pos] + rs + base[pos:]}
+						if pos < len(base) && base[pos] < 0x80 {
+							texts = append(texts, base[:pos]+rs+base[pos+1:])
+						}
+						for _, text := range texts {
+							for _, rule := range []int{0, 1} {
+								judge(Case{Kind: "text", Text: vkit.B(text), Rule: rule}, w)
+								w.EvalRandom(vkit.Hash64("R", text, strconv.Itoa(rule)), true)
+							}
+						}
+					}
 				}
 			}
 		})
